@@ -29,6 +29,9 @@ var c03Durations = []string{"-1ns", "-1s", "-24h", "", "0s", "1ns", "999ms", "1s
 var c03PREF64 = []string{"", "64:ff9b::/96", "2001:db8::/64", "2001:db8::/56", "2001:db8::/48", "2001:db8::/40", "2001:db8::/32",
 	"2001:db8::/33", "2001:db8::/0", "::/0", "2001:db8::/128", "2001:db8::1/96", "64:ff9b::1/96", "10.0.0.0/8", "10.0.0.0/32", "192.0.2.0/24", "::ffff:10.0.0.0/96", "fe80::%eth0/64", "garbage"}
 
+var c03CIDRs = []string{"::ffff:0:0/96", "::ffff:192.0.2.0/120", "::ffff:10.0.0.0/104", "::ffff:0.0.0.0/64", "0.0.0.0/0", "0.0.0.0/32", "192.0.2.0/24",
+	"64:ff9b::/96", "fe80::/64", "ff02::/16", "::/64", "::/0", "0::/64", "0::/0", "::1/128", "2001:db8::/127", "2002:c000:204::/48", "::/1", "8000::/1"}
+
 type c03Key struct{ Kind, Key string } // Kind "" = interface scalar
 
 var c03Keys = []c03Key{
@@ -289,7 +292,7 @@ func c03Check(c c03Case) [][2]string {
 func TestVerifC03(t *testing.T) {
 	r := ev.Begin("C03", "codec")
 	defer r.End(t)
-	r.Rule = "documents = base documents {static, wildcard} x {plain, deprecated at 4 clock readings, deprecated with a clock that advances 0.3 s / 2 s per reading across each deadline} with every duration-typed key set to each of 21 boundary strings (negative, empty, sub-second, 16/32-bit limits +-1, int64 limit, infinite, auto) one at a time, alone and in each of 4 interface modes (unicast_only, managed+other_config, preference high + hop_limit 0, unicast_only with the longest intervals) (quick) and all pairs of duration keys (thorough), and the pref64 prefix set to each of 19 CIDR strings; every ACCEPTED document is built (on a link with a MAC, without one, and with all addresses still tentative; loopback routes carrying the kernel preferences reserved/high/low; also with the RDNSS stanza reduced to the wildcard alone), encoded with ndp.MarshalMessage, decoded with ndp.ParseMessage and compared field by field up to truncation; non-trivial = accepted by the parser and RA generation succeeded; distinct = distinct TOML x clock"
+	r.Rule = "documents = base documents {static, wildcard} x {plain, deprecated at 4 clock readings, deprecated with a clock that advances 0.3 s / 2 s per reading across each deadline} with every duration-typed key set to each of 21 boundary strings (negative, empty, sub-second, 16/32-bit limits +-1, int64 limit, infinite, auto) one at a time, alone and in each of 4 interface modes (unicast_only, managed+other_config, preference high + hop_limit 0, unicast_only with the longest intervals) (quick) and all pairs of duration keys (thorough), the pref64 prefix set to each of 19 CIDR strings, and the prefix / route stanza's prefix set to each of 19 CIDR strings (IPv4, IPv4-mapped, 6to4, multicast, link-local, wildcard spellings); every ACCEPTED document is built (on a link with a MAC, without one, and with all addresses still tentative; loopback routes carrying the kernel preferences reserved/high/low; also with the RDNSS stanza reduced to the wildcard alone), encoded with ndp.MarshalMessage, decoded with ndp.ParseMessage and compared field by field up to truncation; non-trivial = accepted by the parser and RA generation succeeded; distinct = distinct TOML x clock"
 	r.Assumptions = []string{"github.com/mdlayher/ndp's codec is the wire format (trusted)", "system state fixed to one for which RA generation succeeds (quantifier)"}
 
 	if r.Replay != nil {
@@ -390,6 +393,19 @@ func TestVerifC03(t *testing.T) {
 						}
 					}
 				}
+			}
+		}
+		// Prefix and route stanzas over address-family and wildcard-spelling edge cases:
+		// whatever is accepted must survive the wire (the decoder refuses IPv4-mapped prefixes).
+		for _, cidr := range c03CIDRs {
+			for _, kind := range []string{"prefix", "route"} {
+				d := c03Base(false, wild)
+				if kind == "prefix" {
+					d.Ifaces[0].Prefix[0]["prefix"] = cidr
+				} else {
+					d.Ifaces[0].Route[0]["prefix"] = cidr
+				}
+				one([]string{kind + ".prefix=" + cidr}, d, 0)
 			}
 		}
 		for _, p := range c03PREF64 {
